@@ -262,6 +262,15 @@ func init() {
 					}})
 				}
 			}
+			// observation gaps (zz_verif_obsgap.go): Observe is an operation of the alphabet
+			for _, metric := range []DistanceKind{Euclidean, Cosine} {
+				metric := metric
+				sh = append(sh, vShard{Name: fmt.Sprintf("obsgap/flat/%s", metric), Run: func(c *vCtx) {
+					in := newFlatDeep(c, metric, 3)
+					in.cfg = "obsgap " + in.cfg
+					vBFS(c, &vObsGapSys{inner: in}, 6)
+				}})
+			}
 			// search-object histories (shared explorer, zz_verif_builders.go)
 			for _, metric := range []DistanceKind{Euclidean, L2Squared, Cosine} {
 				bcfg := vVecCfg{Kind: "flat", Metric: metric, Dim: 3}
@@ -319,6 +328,14 @@ func init() {
 				var n int
 				fmt.Sscanf(v.Config[i:], " sweep n=%d", &n)
 				vKindSweep(c, vParseVecCfg(v.Config[:i]), n+1, nil)
+				_, ok := c.viol[v.Sig()]
+				return ok
+			}
+			if strings.HasPrefix(v.Config, "obsgap flatdeep ") {
+				fmt.Sscanf(strings.TrimPrefix(v.Config, "obsgap flatdeep "), "metric=%s dim=%d ids=%d", &metric, &dim, &nids)
+				in := newFlatDeep(c, DistanceKind(metric), nids)
+				in.cfg = v.Config
+				vReplayHist(&vObsGapSys{inner: in}, v.History)
 				_, ok := c.viol[v.Sig()]
 				return ok
 			}
